@@ -374,7 +374,8 @@ def hexsrc(s):
 def run(tier, seed):
     ck = vlib.Check("C12", tier, seed, level="proof")
     ok_obl = ck.obligations(PROP, clean=False)
-    gvh, err = ck.build_gvh(pkg="./cmd/gvh-front", name="gvh_front")
+    gvh, err = ck.build_gvh(pkg="./cmd/gvh-front", name="gvh_front" + ("_mut" if os.environ.get("VERIF_C12_OVERLAY") else ""),
+                            overlay=os.environ.get("VERIF_C12_OVERLAY"))   # overlay: mutation experiments only
     if gvh is None:
         ck.violation("harness does not build against /repo", {"kind": "build", "stderr": err[-3000:]}, no_input=True)
         return ck.finish("n/a", TRUSTED, [])
